@@ -15,23 +15,44 @@ TReset == /\ Is("Reset")
           /\ backend' = E.backend /\ cb' = 0 /\ sinceReal' = 0
           /\ hbF' = 0 /\ hbOpen' = FALSE /\ hbSF' = 31 /\ hbP' = FALSE /\ hbSP' = 2
           /\ hbRes' = "none" /\ hbAct' = "Init" /\ hbCons' = 0 /\ hbScn' = <<>>
-          /\ act' = "Init" /\ real' = FALSE /\ Consume
+          /\ act' = "Init" /\ real' = FALSE /\ pend' = [on |-> FALSE, st |-> "none", from |-> "none", age |-> 0] /\ slowSeen' = FALSE /\ Consume
 \* SetBackend to the same value is a no-op in the harness as in the spec
 TSetBackend == /\ Is("SetBackend")
-               /\ IF E.b = backend THEN UNCHANGED <<ci, status, cf, mult, wait, lastIv, backend, cb, sinceReal, hbvars, act, real>>
+               /\ IF E.b = backend THEN UNCHANGED <<ci, status, cf, mult, wait, lastIv, backend, cb, sinceReal, hbvars, act, real, pend, slowSeen>>
                                    ELSE SetBackend(E.b)
                /\ Consume
 TTick  == Is("Tick") /\ Tick(E.d) /\ Consume
 TRound == Is("Round") /\ Round /\ real' = (E.probes > 0) /\ Stored /\ Consume
 TProxyFailure == Is("ProxyFailure") /\ ProxyFailure /\ Stored /\ Consume
+TSlowBegin == Is("SlowBegin") /\ "skipped" \notin DOMAIN E /\ SlowBegin /\ real' = (E.probes > 0) /\ Consume
+\* the scenario asked for an overlapped check at a moment when none is due (the generator cannot know the
+\* backoff an earlier overlapped store left behind): nothing ran, and nothing may have been probed
+TSlowBeginSkip == /\ Is("SlowBegin") /\ "skipped" \in DOMAIN E /\ wait > 0 /\ ~pend.on /\ E.probes = 0
+                  /\ act' = "SlowSkip" /\ real' = FALSE
+                  /\ UNCHANGED <<ci, status, cf, mult, wait, lastIv, backend, cb, sinceReal, hbvars, pend, slowSeen>>
+                  /\ Consume
+TSlowEnd == Is("SlowEnd") /\ SlowEnd(E.cf, E.mult, E.iv) /\ status' = E.status /\ cb' = E.cb /\ Consume
+(* Known finding KF-C07-1 (only if listed): a check that overlaps another writer decides about the recovery *)
+(* callback from its SNAPSHOT of the status: endpoint healthy when the probe started, marked offline by the  *)
+(* proxy meanwhile, probe result healthy stored afterwards -> stored transition offline->healthy, no       *)
+(* re-discovery. (And the converse: a callback for a transition that is none.)                              *)
+KF_C07_1 == /\ "KF-C07-1" \in KnownDeviations
+            /\ Is("SlowEnd") /\ pend.on /\ pend.from # status
+            /\ SlowEndJudged(E.cf, E.mult, E.iv, pend.from) /\ status' = E.status /\ cb' = E.cb
+            /\ Consume /\ UseDeviation("KF-C07-1")
 TFinal == /\ Is("Final") /\ cb = E.cb
-          /\ UNCHANGED <<ci, status, cf, mult, wait, lastIv, backend, cb, sinceReal, hbvars, real>>
+          /\ UNCHANGED <<ci, status, cf, mult, wait, lastIv, backend, cb, sinceReal, hbvars, real, pend, slowSeen>>
           /\ act' = "Final" /\ Consume
 
+(* RecoveryCallback, except on the step the listed finding KF-C07-1 is about (an overlapped store judged   *)
+(* against a stale snapshot) -- and only while that finding is listed.                                     *)
+StaleStore == "KF-C07-1" \in KnownDeviations /\ pend.on /\ ~pend'.on /\ pend.from # status
+TRecoveryCallback == [][(act' # "Init" /\ ~StaleStore) => cb' = IF status' = "healthy" /\ status \notin {"healthy", "unknown"} THEN CbInc(cb) ELSE cb]_vars
+
 TraceInit == /\ ci = 1 /\ status = "unknown" /\ cf = 0 /\ mult = 1 /\ wait = 0 /\ lastIv = 0
-             /\ backend = "ok" /\ cb = 0 /\ sinceReal = 0 /\ HB!Init /\ act = "Init" /\ real = FALSE
+             /\ backend = "ok" /\ cb = 0 /\ sinceReal = 0 /\ HB!Init /\ act = "Init" /\ real = FALSE /\ pend = [on |-> FALSE, st |-> "none", from |-> "none", age |-> 0] /\ slowSeen = FALSE
              /\ scn = <<>> /\ l = 1
-TraceNext == TReset \/ TSetBackend \/ TTick \/ TRound \/ TProxyFailure \/ TFinal
+TraceNext == TReset \/ TSetBackend \/ TTick \/ TRound \/ TProxyFailure \/ TSlowBegin \/ TSlowBeginSkip \/ TSlowEnd \/ KF_C07_1 \/ TFinal
 TraceSpec == TraceInit /\ [][TraceNext]_tvars
 HW == HWMark(l)
 =============================================================================
